@@ -28,25 +28,30 @@ AddOK(e) ==
          /\ CongOK(Add(Add(e.r[1], x1), x2), Mul(e.s, e.s), e.c2)
          /\ CongOK(Add(Add(e.r[2], y1), Mul(e.s, e.r[1])), Mul(e.s, x1), e.c3)
 
-\* the double-and-add machine stepping through the recorded additions
-Bit0(k) == Dig(k, 1) % 2 = 1
-Half(k) == DivModSmall(k, 2)[1]
-RECURSIVE Machine(_, _, _, _, _)
-Machine(adds, i, coef, current, result) ==
-  IF IsZero(coef) THEN [ok |-> i = Len(adds) + 1, res |-> result, why |-> "trailing-additions"]
-  ELSE IF Bit0(coef) THEN
-       IF i + 1 > Len(adds) THEN [ok |-> FALSE, res |-> result, why |-> "missing-additions"]
-       ELSE IF ~(PtEq(adds[i].p, result) /\ PtEq(adds[i].q, current)) THEN [ok |-> FALSE, res |-> result, why |-> "result+=current-operands"]
-       ELSE IF ~(PtEq(adds[i + 1].p, current) /\ PtEq(adds[i + 1].q, current)) THEN [ok |-> FALSE, res |-> result, why |-> "doubling-operands"]
-       ELSE Machine(adds, i + 2, Half(coef), adds[i + 1].r, adds[i].r)
-  ELSE IF i > Len(adds) THEN [ok |-> FALSE, res |-> result, why |-> "missing-additions"]
-       ELSE IF ~(PtEq(adds[i].p, current) /\ PtEq(adds[i].q, current)) THEN [ok |-> FALSE, res |-> result, why |-> "doubling-operands"]
-       ELSE Machine(adds, i + 1, Half(coef), adds[i].r, result)
+\* Scalar multiplication, independently of the algorithm the library uses (double-and-add today, possibly windows or tables
+\* tomorrow): every recorded addition is a correct group operation (AddOK), so each operand that is a known multiple of the
+\* base point makes the sum a known multiple -- bookkeeping of multiples modulo the group order.  The returned point must be
+\* the multiple k.  If an operand is a point of unknown origin (e.g. a table filled by an earlier call) the chain cannot be
+\* followed and this clause gives no verdict; the identities (a+b)G = aG+bG, a(bG) = (ab)G still decide such a tree.
+NOrd == <<65, 65, 54, 208, 140, 94, 210, 191, 59, 160, 72, 175, 230, 220, 174, 186, 254, 255, 255, 255, 255, 255, 255, 255,
+          255, 255, 255, 255, 255, 255, 255, 255>>                                \* group order n, little endian
+AddModN(x, y) == LET t == Add(x, y) IN IF Lt(t, NOrd) THEN Strip(t) ELSE Strip(Sub(t, NOrd))
+RECURSIVE Lookup(_, _, _)
+Lookup(known, pt, i) == IF i = 0 THEN <<-1>> ELSE IF PtEq(known[i].pt, pt) THEN known[i].m ELSE Lookup(known, pt, i - 1)
+RECURSIVE Chain(_, _, _)
+Chain(adds, i, known) ==
+  IF i > Len(adds) THEN [ok |-> TRUE, known |-> known]
+  ELSE LET x == Lookup(known, adds[i].p, Len(known))  y == Lookup(known, adds[i].q, Len(known)) IN
+       IF x = <<-1>> \/ y = <<-1>> THEN [ok |-> FALSE, known |-> known]
+       ELSE Chain(adds, i + 1, Append(known, [pt |-> adds[i].r, m |-> AddModN(x, y)]))
 
 WhyRmul(c) ==
   IF \E k \in 1..Len(c.adds) : ~AddOK(c.adds[k]) THEN "addition-violates-group-law"
-  ELSE LET m == Machine(c.adds, 1, Strip(c.k), c.base, <<>>) IN
-       IF ~m.ok THEN m.why ELSE IF ~PtEq(m.res, c.res) THEN "result-differs" ELSE ""
+  ELSE LET ch == Chain(c.adds, 1, <<[pt |-> <<>>, m |-> <<>>], [pt |-> c.base, m |-> <<1>>]>>) IN
+       IF ~ch.ok THEN ""
+       ELSE LET m == Lookup(ch.known, c.res, Len(ch.known)) IN
+            IF m = <<-1>> THEN "result-is-not-a-point-the-additions-produced"
+            ELSE IF ~Eq(m, Strip(c.k)) THEN "result-is-another-multiple-of-the-base-point" ELSE ""
 BE32(x) == ToBE(x, 32)
 WhySec(c) == LET x == c.pt[1]  y == c.pt[2] IN
   IF c.compressed THEN (IF c.enc # <<IF IsOdd(y) THEN 3 ELSE 2>> \o BE32(x) THEN "sec-bytes" ELSE IF ~PtEq(c.back, c.pt) THEN "sec-roundtrip" ELSE "")
